@@ -895,7 +895,15 @@ func (e *Env) call(x ECall) EVal {
 		v := arg(0)
 		if e.assuming {
 			u.fresh++
-			return EVal{T: And(Neq(v.T, NilV), Eq(App("aid", SInt, App("aobj", SV, v.T)), IntLit(int64(u.fresh))))}
+			f := And(Neq(v.T, NilV), Eq(App("aid", SInt, App("aobj", SV, v.T)), IntLit(int64(u.fresh))))
+			if v.Ty != nil {
+				if _, isSl := v.Ty.Underlying().(*types.Slice); isSl {
+					// a fresh slice has a fresh backing array
+					u.fresh++
+					f = And(f, Eq(App("aid", SInt, App("aobj", SV, App("sptr", SV, v.T))), IntLit(int64(u.fresh))))
+				}
+			}
+			return EVal{T: f}
 		}
 		return EVal{T: And(Neq(v.T, NilV), Gt(App("aid", SInt, App("aobj", SV, v.T)), IntLit(int64(e.freshLo))))}
 	case "wrap_u32":
